@@ -31,7 +31,7 @@ def _setup(k):
 # DSL -> jax functions
 
 NP_DTYPES = {'f32': 'float32', 'i32': 'int32', 'f16': 'float16', 'bf16': 'bfloat16', 'i8': 'int8', 'u8': 'uint8',
-             'bool': 'bool'}
+             'bool': 'bool', 'c64': 'complex64'}
 
 
 def leaf_dtype(lp):
@@ -48,7 +48,35 @@ def _np_dtype(np, name):
 NEST_KEYS = ['z', 'a', 'm', 'b']       # NOT in sorted order: jax flattens dicts by sorted key, python iterates insertion
 
 
+_St = {n: __import__('collections').namedtuple('ClientState%d' % n, NEST_KEYS[:n]) for n in range(0, 5)}
+
+
+def _dataclass_state():
+  import fedjax
+
+  @fedjax.dataclass
+  class DcState:
+    leaves: tuple
+    extra: None = None
+  return DcState
+
+
+_DC = []
+
+
 def pack_state(nest, vals):
+  if nest == 'namedtuple':
+    return _St[len(vals)](*vals)
+  if nest == 'list':
+    return list(vals)
+  if nest == 'dataclass':       # fedjax.dataclass pytree with a None field
+    if not _DC:
+      _DC.append(_dataclass_state())
+    return _DC[0](leaves=tuple(vals))
+  return _pack_state(nest, vals)
+
+
+def _pack_state(nest, vals):
   """The client step state as a pytree: a tuple, a dict whose keys are not in sorted order, or a
   nested mix of dict / tuple / list with None (empty subtree) entries."""
   if nest == 'dict':
@@ -59,6 +87,12 @@ def pack_state(nest, vals):
 
 
 def unpack_state(nest, st, n):
+  if nest == 'dataclass':
+    return list(st.leaves)
+  return _unpack_state(nest, st, n)
+
+
+def _unpack_state(nest, st, n):
   if nest == 'dict':
     return [st[NEST_KEYS[k]] for k in range(n)]
   if nest == 'nested':
@@ -138,6 +172,39 @@ def build_program(prog, wsr, nest='tuple'):
   return client_init, client_step, client_final
 
 
+LAYOUTS = ['c', 'F', 'T', 'step2', 'neg', 'col', 'ro']
+
+
+def relayout(np, a, kind):
+  """An array equal to `a` (values, shape, dtype) with another memory layout: Fortran order,
+  a transposed view, an every-other-element slice of a wider array, negative strides, a column
+  slice of a wider array, read-only.  (Byte-swapped dtypes are rejected by JAX itself.)"""
+  nd = a.ndim
+  if kind == 'c' or nd == 0:
+    return a
+  if kind == 'F':
+    return np.asfortranarray(a)
+  if kind == 'T':
+    return np.ascontiguousarray(a.T).T
+  if kind == 'step2':
+    w = np.zeros(tuple(2 * d for d in a.shape), a.dtype)
+    v = w[(slice(None, None, 2),) * nd]
+    v[...] = a
+    return v
+  if kind == 'neg':
+    rev = (slice(None, None, -1),) * nd
+    return np.ascontiguousarray(a[rev])[rev]
+  if kind == 'col':
+    w = np.zeros(a.shape + (3,), a.dtype)
+    w[..., 1] = a
+    return w[..., 1]
+  if kind == 'ro':
+    c = a.copy()
+    c.flags.writeable = False
+    return c
+  raise ValueError(kind)
+
+
 def build_inputs(case, use_jax):
   """Fresh arrays for one backend call.  Returns (shared, clients, handles) where
   handles = [(name, array object, expected numpy copy)].  0-d leaves may be delivered as
@@ -150,9 +217,17 @@ def build_inputs(case, use_jax):
   handles = []
   sform = case.get('scalar_form', 'array')
 
+  counter = [int(case.get('layout_seed', 0))]
+
   def mk(name, vals, shape, dt, scalar_ok=False):
     vals = [float(v) if isinstance(v, str) else v for v in vals]      # 'inf' / '-inf' / 'nan' on REAL positions
-    a = np.array(vals, dtype=_np_dtype(np, dt)).reshape(shape)
+    if dt == 'c64':               # (re, im) pairs
+      a = (np.array(vals[0::2], np.float32) + 1j * np.array(vals[1::2], np.float32)).astype(np.complex64).reshape(shape)
+    else:
+      a = np.array(vals, dtype=_np_dtype(np, dt)).reshape(shape)
+    if case.get('layouts'):       # the same values in a non-default memory layout
+      counter[0] += 1
+      a = relayout(np, a, LAYOUTS[counter[0] % len(LAYOUTS)])
     if scalar_ok and list(shape) == [] and sform != 'array' and dt in ('f32', 'i32'):
       obj = a[()] if sform == 'np' else a[()].item()     # np.float32(..) / python float
       handles.append((name, obj, a.copy()))
@@ -320,6 +395,10 @@ def _canon_leaf(np, x):
   name = str(a.dtype)
   if name in ('bfloat16', 'float16'):
     a = a.astype(np.float32)
+  if name == 'complex64':        # (re, im) pairs; the shape stays the complex array's
+    shape = list(a.shape)
+    flat = np.ascontiguousarray(a).reshape(-1).view(np.float32).tolist()
+    return {'dtype': name, 'shape': shape, 'v': [float(v) for v in flat]}
   flat = a.reshape(-1).tolist()
   if a.dtype.kind == 'f':
     vals = [v if np.isfinite(v) else ('nan' if v != v else ('inf' if v > 0 else '-inf')) for v in (float(u) for u in flat)]
@@ -439,7 +518,17 @@ def run_backend(case, backend, prog_fns):
     else:
       cid, out = item
       res_c = None
-    return {'id': _int_id(case, cid), 'out': _canon_tree(np, jax, out), 'res': res_c}
+    return {'id': _int_id(case, cid), 'out': _canon_tree(np, jax, out), 'res': res_c,
+            'tree': [str(jax.tree_util.tree_structure(out)),
+                     str(jax.tree_util.tree_structure(res[0])) if wsr and len(res) else None]}
+
+  # the tree structures the client functions produce, straight from the program (no fedjax involved)
+  n_leaves = len(case['prog']['leaves'])
+  nest = case.get('state_nest', 'tuple')
+  o['tree_expected'] = [
+      str(jax.tree_util.tree_structure(pack_state(nest, [0] * n_leaves) if case.get('default_final')
+                                       else {'o%d' % k: 0 for k in range(n_leaves)})),
+      str(jax.tree_util.tree_structure({'r0': 0, 'leaf': 0}))]
 
   f = None
   try:
@@ -733,7 +822,43 @@ def run_threads(case):
   return {'reads': reads, 'turns': sched.pos, 'errors': errors}
 
 
+def run_grid(case):
+  """_blockify on EVERY vector of per-client batch counts in [0, base)^n for block size D.
+  Per vector: a digest of the complete ClientBlock contents (for the Coq model) and the plain
+  structure (for the oracle)."""
+  import itertools
+  import numpy as np
+  from fedjax.core import for_each_client as fec
+  D, n, base = case['D'], case['n'], case['base']
+  digests, structs = [], []
+  for counts in itertools.product(range(base), repeat=n):
+    clients = [(i + 1, [100 * (i + 1) + j + 1 for j in range(c)], 1000 + i) for i, c in enumerate(counts)]
+    snapshot = [list(c[1]) for c in clients]
+    enc, st = [], []
+    for blk in fec._blockify(iter(clients), D):      # pylint: disable=protected-access
+      ids = [0 if x is None else int(x) for x in blk.client_id]
+      mask = [int(bool(m)) for m in blk.client_mask]
+      nb = [int(x) for x in blk.num_batches]
+      rows = [([int(np.asarray(b)) for b in row], [int(bool(m)) for m in msk]) for row, msk in blk.masked_batches]
+      cin = [int(np.asarray(x)) for x in blk.client_input]
+      enc += ids + [-1] + mask + [-2] + nb + [-3]
+      for r, m in rows:
+        enc += r + m + [-4]
+      enc += cin + [-5]
+      st.append([ids, mask, nb, rows, cin])
+    h = 0
+    for x in enc:
+      h = (h * 131 + x + 7) % 1000000007
+    digests.append(h)
+    structs.append(st)
+    if snapshot != [c[1] for c in clients]:
+      structs[-1] = 'caller lists changed'
+  return {'digests': digests, 'structs': structs}
+
+
 def handle(case):
+  if case['kind'] == 'grid':
+    return run_grid(case)
   if case['kind'] == 'run':
     return run_case(case)
   if case['kind'] == 'threads':
